@@ -4,7 +4,7 @@
 set -u
 V=/verif
 REPO=${VERIF_REPO:-/repo}
-PROPS=$(python3 -c "import json;print(' '.join(c['property_id'] for c in json.load(open('$V/MANIFEST.json'))['checks']))")
+PROPS=${GUARD_PROPS:-$(python3 -c "import json;print(' '.join(c['property_id'] for c in json.load(open('$V/MANIFEST.json'))['checks']))")}
 fail=0
 for d in $(find $V/refactors -name patch.diff | sort | xargs -n1 dirname); do
   s=$(echo $d | sed "s#$V/refactors/##" | tr / -)
